@@ -367,11 +367,13 @@ PROPS = {
         "assumptions": ["rust-protobuf's generated code is modelled (match on full tag, limits, recursion levels), not verified"],
     },
     "C20": {
-        "thm_module": ["AkdModel.Thm.C20", "AkdModel.Thm.C05", "AkdModel.Thm.C20b"],
+        "thm_module": ["AkdModel.Thm.C20", "AkdModel.Thm.C05", "AkdModel.Thm.C20b", "AkdModel.Thm.C20c"],
         "theorems": ["Akd.C20." + t for t in ["tombstone_keeps_tree", "tombstone_epochHash", "tombstone_audit",
                                                "tombstone_other_lookup", "tombstone_own_lookup", "tombstone_then_publish"]]
                     + ["Akd.C05.membership_sound_leaf"]
-                    + ["Akd.Store." + t for t in ["tombstone_exact", "tombstone_keeps_later", "tombstone_frame", "tombstone_active"]],
+                    + ["Akd.Store." + t for t in ["tombstone_exact", "tombstone_keeps_later", "tombstone_frame", "tombstone_active"]]
+                    + ["Akd.C20." + t for t in ["tombstone_history_allow", "tombstone_history_default_ok",
+                                               "tombstone_history_default_rejects", "tombstone_other_history", "tombstone_twice"]],
         "streams": ["l1.dir.c20", "l1.store"],
         "rule": "l1.store: StorageManager::tombstone_value_states outside and INSIDE an open transaction (every dense case cuts "
                 "the user with the most states in the middle while the transaction is open): the manager's view of the user's "
